@@ -312,6 +312,8 @@ def rule_formulas(ctx: Ctx) -> None:
 
 
 def run(ctx: Ctx) -> None:
+    from rules import generic as _G
+    ctx.run(_G.rule_arity, ("perception_eval.evaluation.metrics.classification",), "R-ARITY", 3)
     ctx.run(rule_matching)
     ctx.run(rule_counting)
     ctx.run(rule_formulas)
